@@ -8,13 +8,11 @@ IMPORTS = ("From Coq Require Import List Ascii String NArith ZArith Bool.\n"
            "From Galaxy.Base Require Import Strs.\nFrom Galaxy.Model Require Import Keys Page IpApi.\n"
            "From Galaxy.Corr Require Import CorrBase C11c.\n")
 
-THEOREMS = ["key_injective", "parse_format"]
-THEOREMS_LATER = ["list_release_roundtrip", "blank_type_is_statefulset", "release_exact",
+THEOREMS = ["key_injective", "parse_format", "list_release_roundtrip", "blank_type_is_statefulset", "release_exact",
             "release_exact_owner", "pages_partition", "pages_beyond_empty", "sort_by_ip_permutation"]
-REFUTED = []
-REFUTED_LATER = ["parse_format_refuted_pool_underscore", "list_release_refuted_pool_underscore",
+REFUTED = ["parse_format_refuted_pool_underscore", "list_release_refuted_pool_underscore",
            "list_release_refuted_omitted_type", "list_release_refuted_null_type"]
-DEPS = ["Strs", "Keys", "Page", "IpApi", "KeysP", "CorrBase", "C11c", "C11"]
+DEPS = ["Strs", "Keys", "Page", "IpApi", "KeysP", "PageP", "CorrBase", "C11c", "C11"]
 
 K4_TAG = "c11-pool-annotation-contains-underscore"
 KNOWN_FINDINGS = [
